@@ -188,7 +188,7 @@ class C09(Property):
         return "".join(rng.choice("ACGT") for _ in range(length))
 
     def cases(self, rng: random.Random, tier: str, deep: bool) -> Iterator[Dict[str, Any]]:
-        n_genes = 9000 if deep else 1100
+        n_genes = 12000 if deep else 2500
         for _ in range(n_genes):
             loc, length = self.rand_gene(rng)
             dna = self.rand_dna(rng, length)
@@ -212,8 +212,22 @@ class C09(Property):
             if rng.random() < 0.35 and loc["parts"][0][2] in (1, -1):
                 s, e = self.rand_range(rng, loc, 3)
                 yield dict(base, kind=rng.choice(["motif", "domain"]), s=s, e=e, dna=self.without_stops(loc, dna))
-            if rng.random() < 0.08 and loc["parts"][0][2] in (1, -1):
-                yield dict(base, kind="tta_detect", plant=[rng.randrange(0, max(aa, 1)) for _ in range(3)])
+            overlapping = any(a[0] < b[1] and b[0] < a[1] for a, b in itertools.combinations(loc["parts"], 2))
+            if rng.random() < (0.5 if overlapping else 0.08) and loc["parts"][0][2] in (1, -1):
+                # whole-module run; codons are planted at random residues and on the exon junctions
+                junctions = [b // 3 for b in self.borders(loc)[:-1]]
+                plant = [rng.randrange(0, max(aa, 1)) for _ in range(2)] + rng.sample(junctions, min(len(junctions), 2))
+                yield dict(base, kind="tta_detect", plant=plant)
+            if rng.random() < 0.02 and len(loc["parts"]) > 1:
+                # outside the property's quantifier (an empty exon): correspondence with the model only
+                parts = loc["parts"]
+                spot = max(p[1] for p in parts) + 1
+                i = rng.randrange(1, len(parts))
+                odd = {"c": True, "parts": parts[:i] + [[spot, spot, parts[0][2]]] + parts[i:]}
+                s, e = self.rand_range(rng, odd, 3)
+                yield dict(kind="sub", loc=odd, dna=dna + "AC", s=s, e=e)
+                s, e = self.rand_range(rng, odd, 1)
+                yield dict(kind="offsets", loc=odd, dna=dna + "AC", s=s, e=e)
         if deep:
             yield from self.small_scope(rng, full=(tier == "thorough"))
 
@@ -377,7 +391,13 @@ class C09(Property):
             feat = list(di.generate_domain_features(cds, [hit]).values())[0]
         else:
             feat = di.generate_motif_features(cds, [hit])[0]
-        return {"loc": common.location_json(feat.location), "extract": str(feat.location.extract(seq)),
+        # the record-level helper used when features are re-translated (stop-free frame, so `to_stop` is moot)
+        from antismash.common.secmet.record import Record
+        record = Record(seq)
+        whole = str(record.get_aa_translation_from_location(location))
+        piece = str(record.get_aa_translation_from_location(feat.location))
+        return {"record_translation_ok": piece == whole[case["s"]:case["e"]],
+                "loc": common.location_json(feat.location), "extract": str(feat.location.extract(seq)),
                 "translation": str(feat.location.extract(seq).translate()),
                 "feature_translation": feat.translation,
                 "protein": [int(feat.protein_location.start), int(feat.protein_location.end)]}
@@ -513,7 +533,8 @@ class C09(Property):
                     whole = str(Seq(usable).translate())
                     spec_ok = obs["translation"] == whole[s:e] and len(obs["extract"]) == 3 * (e - s)
                     if spec_ok and kind != "sub":
-                        spec_ok = obs["feature_translation"] == obs["translation"] and obs["protein"] == [s, e]
+                        spec_ok = obs["feature_translation"] == obs["translation"] and obs["protein"] == [s, e] \
+                            and obs["record_translation_ok"]
             else:
                 spec_ok = impl_err is not None          # ranges outside the gene are refused
                 if kind in ("motif", "domain") and impl_err is None:
